@@ -550,7 +550,7 @@ func c16stress(c *Ctx) {
 							return
 						}
 						if got, ok := searchHandle(c.R, tag, idx, vq); ok {
-							checkVecResult(c.R, tag, vm, exSet, vq, got, len(vm.Entries) < 1000)
+							checkVecResult(c.R, tag, vm, exSet, vq, got, exactFor(len(vm.Entries), vq))
 						}
 						if side == 1 {
 							idx.Close()
@@ -563,7 +563,7 @@ func c16stress(c *Ctx) {
 						}
 						time.Sleep(200 * time.Microsecond) // an evicted index is closed asynchronously
 						if got, ok := searchHandle(c.R, tag+" (after the other handle was closed and expiry ticks)", idx, vq); ok {
-							checkVecResult(c.R, tag+" (after the other handle was closed and expiry ticks)", vm, exSet, vq, got, len(vm.Entries) < 1000)
+							checkVecResult(c.R, tag+" (after the other handle was closed and expiry ticks)", vm, exSet, vq, got, exactFor(len(vm.Entries), vq))
 						}
 						idx.Close()
 					}(side)
@@ -598,7 +598,7 @@ func c16stress(c *Ctx) {
 						}
 						got, ok := searchHandle(c.R, tag, idx, vq)
 						if ok {
-							checkVecResult(c.R, tag, vm, exSet, vq, got, len(vm.Entries) < 1000)
+							checkVecResult(c.R, tag, vm, exSet, vq, got, exactFor(len(vm.Entries), vq))
 						}
 						idx.Close()
 						if grng.Intn(4) == 0 {
@@ -646,6 +646,24 @@ func c19(c *Ctx) {
 				cl = "tall"
 			}
 			bs = append(bs, model.Gen(rng, cl, model.GenOpts{Vec: true, NoBig: true, IDPrefix: fmt.Sprintf("f%d-", l), VecSalt: 1 + i%997}))
+		}
+		if big && i%12 == 11 {
+			// more than 4096 surviving vectors in one field: twelve vectors per field
+			// instance of the tall leaf (an engine that is filled in several calls
+			// must report the failure of any of them)
+			many := 0
+			for di := range bs[0].Docs {
+				for vi := range bs[0].Docs[di].Vecs {
+					vf := &bs[0].Docs[di].Vecs[vi]
+					for len(vf.Vec) < 12*vf.Dims {
+						for k := 0; k < vf.Dims; k++ {
+							vf.Vec = append(vf.Vec, float32(rng.Intn(17)-8)/4)
+						}
+					}
+					many += len(vf.Vec) / vf.Dims
+				}
+			}
+			c.R.Max("max_vectors_in_a_faulted_merge", int64(many))
 		}
 		id := fmt.Sprintf("e%d", i)
 		op := "build"
